@@ -88,7 +88,7 @@ func (w *Where) buildIdxSel(index []string, mode byte, perCol map[string][]span)
 	// Fast path: all prefix columns have single-value spans
 	if prefixLen, org, ok := allSingleValuePrefix(index, encode, perCol); ok {
 		isel.prefixLen = prefixLen
-		lookup := prefixLen == len(index)
+		lookup := prefixLen == len(index) && !emptyUnique(mode, org)
 		if lookup {
 			isel.prefixRanges = []pointRange{{Org: org}}
 		} else {
@@ -101,7 +101,7 @@ func (w *Where) buildIdxSel(index []string, mode byte, perCol map[string][]span)
 			end := enc.String()
 			isel.prefixRanges = []pointRange{{Org: org, End: end}}
 		}
-		if prefixLen == len(index) {
+		if lookup {
 			if isel.prefixRanges[0].isPoint() {
 				isel.singleton = true
 				return &isel
@@ -115,7 +115,8 @@ func (w *Where) buildIdxSel(index []string, mode byte, perCol map[string][]span)
 		for i := range comp {
 			c := &comp[i]
 			if c.isPoint() {
-				lookup := len(exploded[i]) == len(index)
+				lookup := len(exploded[i]) == len(index) &&
+					!emptyUnique(mode, c.Org)
 				if !lookup {
 					assert.That(encode)
 					c.End = prefixEnd(exploded[i])
@@ -144,6 +145,13 @@ func (w *Where) buildIdxSel(index []string, mode byte, perCol map[string][]span)
 	}
 
 	return &isel
+}
+
+// emptyUnique returns true for the all empty value of a unique index.
+// It needs a range rather than a lookup because there can be several rows,
+// stored with the key fields added (Fields2) to make them unique.
+func emptyUnique(mode byte, org string) bool {
+	return mode == 'u' && org == ""
 }
 
 // prefixEnd returns the end of the range for a prefix of single values.
